@@ -16,6 +16,9 @@ package core
 //@   ensures @C01: result1 == nil ==> len(result0.ConjureSeed) == 16 && string(result0.ConjureSeed) == streamBytes(hkdfStream(old(string(sharedSecret)), "conjureconjureconjureconjure", ""), skip, 16)
 //@   ensures @C01: result1 == nil ==> result0.TransportReader != nil && streamOf(result0.TransportReader) == hkdfStream(old(string(sharedSecret)), "conjureconjureconjureconjure", "") && drawn(result0.TransportReader) == skip + 16
 //@   ensures @C01: result0.SharedSecret == sharedSecret
+// (frame as callers need it: nothing that existed before the call is written; the stream position is ghost state of
+// the reader created here)
+//@   assigns drawn
 
 //@ func generateEligatorTransformedKey(publicKey []byte) ([]byte, []byte, error)
 //@   assigns nothing
